@@ -142,6 +142,19 @@ EXPECT.append({"src": "ch = make(chan int64, 1); ch <- 1; m = {}\nfunc bad() { t
 EXPECT.append({"src": "#cancel=6\nch = make(chan int64, 1); ch <- 1; m = {}\nfunc spin() { for { } }\nv, m[spin()] = <-ch\nprobe(\"after\")", "field": "msg", "want": "execution interrupted", "finding": "receive-ok-target-error-ignored",
                "why": "a cancellation while the ok target of a receive statement is evaluated is not swallowed"})
 
+# a break or continue outside any loop of its own function is a runtime error of that function: it leaves the function as an
+# error, reaches the nearest try (or the host), and is never taken for the caller's own loop control
+for _body, _call, _how in (("func f() { %s }", "f()", "a function without parameters"), ("func f(a, b, c, d, e) { %s }", "f(1, 2, 3, 4, 5)", "a function of five parameters"),
+                           ("func f(xs...) { %s }", "f(1)", "a variadic function"), ("func g() { %s }; func f() { g(); probe(\"not here\") }", "f()", "two function levels"),
+                           ("func f() { if true { %s } }", "f()", "inside a block of the function")):
+    for _sig in ("break", "continue"):
+        EXPECT.append({"src": (_body % _sig) + "\nr = []\ntry { for i in [1, 2, 3] { r += i; %s; r += \"after the call\" }; r += \"after the loop\" } catch e { r += \"caught\" }\nr" % _call,
+                       "field": "result", "want": "[i:1,s:636175676874]", "why": "a stray %s in %s called from a loop is an error that reaches the enclosing try" % (_sig, _how)})
+        EXPECT.append({"src": (_body % _sig) + "\nfor i in [1, 2, 3] { probe(i); %s; probe(\"after the call\") }\nprobe(\"after the loop\")" % _call,
+                       "field": "trace", "want": "(i:1)", "why": "a stray %s in %s called from a loop ends the script: nothing after the failing point runs" % (_sig, _how)})
+        EXPECT.append({"src": (_body % _sig) + "\nfor i in [1, 2, 3] { probe(i); %s; probe(\"after the call\") }\nprobe(\"after the loop\")" % _call,
+                       "field": "status", "want": "err", "why": "... and the host gets the error"})
+
 
 def run(tier, seed, replay=None):
     return interpcheck.run_interp_check(
